@@ -112,8 +112,10 @@ func runC12(c *Ctx) {
 			return false
 		}
 		isZero := func(v ssa.Value) bool { n, ok := constInt(v); return ok && n == 0 }
+		// a path that compared curr.CurrVersion == prev.CurrVersion (true) did not take the upgrade branch
+		sameVersion := has("eq", "curr", "CurrVersion", func(v ssa.Value) bool { wh, f := hdrField(vf, v); return wh == "prev" && f == "CurrVersion" }, true)
 		switch {
-		case has("eq", "prev", "NextSwitchOn", func(v ssa.Value) bool {
+		case !sameVersion && has("eq", "prev", "NextSwitchOn", func(v ssa.Value) bool {
 			return derivesFrom(v, func(x ssa.Value) bool {
 				cc, ok := x.(*ssa.Call)
 				return ok && calleeObj(cc) != nil && calleeObj(cc).Name() == "Uint64"
@@ -269,6 +271,147 @@ func runC12(c *Ctx) {
 		c.Check(name+"#approval-window", vf.Pos(), nBad == 0, ifelse(nBad == 0, fmt.Sprintf("all %d accepting paths that add an approval are inside the window", nPlus), fmt.Sprintf("%d of %d accepting paths add an approval without requiring round < NextVoteBefore: a header can add the missing approval at or after the end of the window and keep a proposal the builder would clear", nBad, nPlus)))
 	}
 
+	// ------------------------------------------------------------ W5
+	c.Rule("C12.W5", "GATE", "the verifier lets the version change, and lets a proposal live on at or after the end of its voting window, only on paths that established prev.NextApprovals ≥ UpgradeThreshold — for every parameter set, including a zero waiting period where the switch round coincides with the end of the window")
+	c.Min(2)
+	{
+		hasQuorum := func(as []Atom) bool {
+			for _, a := range as {
+				if a.Kind != "cmp" {
+					continue
+				}
+				op := a.Op
+				if !a.Truth {
+					op = negateCmp(op)
+				}
+				wx, fx := hdrField(vf, a.X)
+				fy, _ := loadedField(stripConv(a.Y))
+				if wx == "prev" && fx == "NextApprovals" && fy != nil && fy.Name() == "UpgradeThreshold" && (op == token.GEQ || op == token.GTR) {
+					return true
+				}
+				wy, fy2 := hdrField(vf, a.Y)
+				fx2, _ := loadedField(stripConv(a.X))
+				if wy == "prev" && fy2 == "NextApprovals" && fx2 != nil && fx2.Name() == "UpgradeThreshold" && (op == token.LEQ || op == token.LSS) {
+					return true
+				}
+			}
+			return false
+		}
+		nSwitch, badSwitch, nLate, badLate := 0, 0, 0, 0
+		for _, p := range acc {
+			sameVersion := false
+			inWindow := false
+			for _, a := range p.atoms {
+				if a.Kind == "eq" && a.Truth {
+					wx, fx := hdrField(vf, a.X)
+					wy, fy := hdrField(vf, a.Y)
+					if fx == "CurrVersion" && fy == "CurrVersion" && wx != wy && wx != "" && wy != "" {
+						sameVersion = true
+					}
+				}
+				if a.Kind == "cmp" {
+					op := a.Op
+					if !a.Truth {
+						op = negateCmp(op)
+					}
+					x, y := a.X, a.Y
+					if op == token.GTR {
+						x, y, op = y, x, token.LSS
+					}
+					if op == token.LSS {
+						isRound := derivesFrom(x, func(v ssa.Value) bool {
+							cc, ok := v.(*ssa.Call)
+							return ok && calleeObj(cc) != nil && calleeObj(cc).Name() == "Uint64"
+						})
+						if wy, fy := hdrField(vf, y); isRound && wy == "prev" && fy == "NextVoteBefore" {
+							inWindow = true
+						}
+					}
+				}
+			}
+			if !sameVersion {
+				nSwitch++
+				if !hasQuorum(p.atoms) {
+					badSwitch++
+				}
+			}
+			if classify(p.atoms) == "on-going" && !inWindow {
+				nLate++
+				if !hasQuorum(p.atoms) {
+					badLate++
+				}
+			}
+		}
+		c.sites += nSwitch + nLate
+		if nSwitch == 0 {
+			c.Undecided(name+"#switch-needs-quorum", vf.Pos(), "no accepting path changes the version: the rule no longer matches the verifier")
+		} else {
+			c.Check(name+"#switch-needs-quorum", vf.Pos(), badSwitch == 0, ifelse(badSwitch == 0, fmt.Sprintf("all %d accepting paths that change the version have approvals ≥ threshold", nSwitch), fmt.Sprintf("%d of %d accepting paths change the version without having compared the approvals with the threshold: with MinUpgradeWaitRounds = 0 a proposal announces NextSwitchOn = NextVoteBefore, and at that round the version switches with a single approval (and the honest builder, who clears the failed proposal, is rejected)", badSwitch, nSwitch)))
+		}
+		if nLate == 0 {
+			c.Undecided(name+"#survival-needs-quorum", vf.Pos(), "no accepting path keeps a proposal after its window")
+		} else {
+			c.Check(name+"#survival-needs-quorum", vf.Pos(), badLate == 0, ifelse(badLate == 0, fmt.Sprintf("all %d accepting paths that keep a proposal at or after the end of its window have approvals ≥ threshold", nLate), fmt.Sprintf("%d of %d accepting paths keep a proposal after its window without quorum", badLate, nLate)))
+		}
+	}
+
+	// ------------------------------------------------------------ W4
+	c.Rule("C12.W4", "SIBLINGS", "builder and verifier draw the quorum boundary at the same place: every comparison of an approval count with UpgradeThreshold in ProcessYouVersionState uses an operator the verifier uses too (normalised to approvals ⋄ threshold), the verifier's operators are exactly < (proposal failed) and ≥ (proposal survives), and so a header the honest builder produces at the end of the voting window is one the verifier accepts")
+	c.Min(3)
+	{
+		thrOps := func(fn *ssa.Function) (map[token.Token]token.Pos, int) {
+			ops := map[token.Token]token.Pos{}
+			n := 0
+			for _, b := range fn.Blocks {
+				for _, in := range b.Instrs {
+					bo, ok := in.(*ssa.BinOp)
+					if !ok {
+						continue
+					}
+					switch bo.Op {
+					case token.LSS, token.LEQ, token.GTR, token.GEQ, token.EQL, token.NEQ:
+					default:
+						continue
+					}
+					fx, _ := loadedField(stripConv(bo.X))
+					fy, _ := loadedField(stripConv(bo.Y))
+					if fx == nil || fy == nil {
+						continue
+					}
+					op := bo.Op
+					switch {
+					case fx.Name() == "NextApprovals" && fy.Name() == "UpgradeThreshold":
+					case fy.Name() == "NextApprovals" && fx.Name() == "UpgradeThreshold":
+						op = flipCmp(op)
+					default:
+						continue
+					}
+					n++
+					ops[op] = bo.Pos()
+				}
+			}
+			return ops, n
+		}
+		pfn := w.Fn("core", "", "ProcessYouVersionState")
+		bOps, nb := thrOps(pfn)
+		vOps, nv := thrOps(vf)
+		c.sites += nb + nv
+		_, hasL := vOps[token.LSS]
+		_, hasG := vOps[token.GEQ]
+		okV := hasL && hasG && len(vOps) == 2
+		c.Check(fname(vf)+"#quorum-boundary", vf.Pos(), okV, ifelse(okV, "the verifier compares approvals with the threshold by < (failed) and ≥ (survives) only", fmt.Sprintf("the verifier's comparisons of approvals with the threshold are %v: failed and surviving proposals no longer partition at the threshold", opNames(vOps))))
+		okB := nb > 0
+		badOp := ""
+		for op, pos := range bOps {
+			if _, has := vOps[op]; !has {
+				okB = false
+				badOp = op.String() + " at " + w.Pos(pos)
+			}
+		}
+		c.Check(fname(pfn)+"#quorum-boundary-as-verifier", pfn.Pos(), okB, ifelse(okB, fmt.Sprintf("the builder compares approvals with the threshold by %v, as the verifier does", opNames(bOps)), "the builder compares approvals with the threshold by "+badOp+", which the verifier does not: with exactly the threshold number of approvals the honest builder's header is rejected by every verifier (or a proposal without quorum survives)"))
+		c.Check(fname(pfn)+"#quorum-comparisons-found", pfn.Pos(), nb >= 1 && nv >= 2, fmt.Sprintf("%d builder and %d verifier comparisons of approvals with UpgradeThreshold", nb, nv))
+	}
+
 	// ------------------------------------------------------------ W3
 	c.Rule("C12.W3", "SIBLINGS+GATE", "ProcessYouVersionState (with clearUpgradeState) writes exactly the five upgrade fields the verifier constrains; InsertChain reaches insertChain only after bc.VerifyYouVersionState returned nil; VersionForRoundWithParents looks the version up protocolRoundBack rounds back from a header's CurrVersion")
 	c.Min(3)
@@ -323,6 +466,44 @@ func runC12(c *Ctx) {
 	pcs := callsTo(bv, pureObj)
 	okLoop := len(pcs) == 1 && inLoop(pcs[0])
 	c.Check(fname(bv)+"#every-block", bv.Pos(), okLoop, ifelse(okLoop, "the pure verifier is called in the loop over the chain segment", "the chain-level verifier does not call VerifyYouVersionState for every block"))
+	// … and the first block is verified against the header it names as its parent
+	for _, fnName := range []string{"VerifyYouVersionState", "VerifyYouVersionState2"} {
+		cf := w.Fn("core", "BlockChain", fnName)
+		c.sawFunc(fname(cf))
+		c.sites++
+		byHash, byNumber := false, ""
+		for _, pc := range callsTo(cf, pureObj) {
+			backward(callArgs(pc)[0], func(v ssa.Value) bool {
+				cc, ok := v.(*ssa.Call)
+				if !ok {
+					return true
+				}
+				o := calleeObj(cc)
+				if o == nil {
+					return false
+				}
+				switch o.Name() {
+				case "GetHeaderByNumber", "GetBlockByNumber", "CurrentHeader", "CurrentBlock":
+					byNumber = o.Name()
+				case "GetHeader", "GetHeaderByHash", "GetBlock", "GetBlockByHash":
+					for _, a := range callArgs(cc) {
+						if derivesFrom(a, func(x ssa.Value) bool {
+							if c2, ok := x.(*ssa.Call); ok && calleeObj(c2) != nil && calleeObj(c2).Name() == "ParentHash" {
+								return true
+							}
+							f, _ := loadedField(x)
+							return f != nil && f.Name() == "ParentHash"
+						}) {
+							byHash = true
+						}
+					}
+				}
+				return false
+			})
+		}
+		okP := byHash && byNumber == ""
+		c.Check(fname(cf)+"#first-parent-by-hash", cf.Pos(), okP, ifelse(okP, "the first block is verified against the header looked up by its ParentHash", "the first block of a batch is verified against a header looked up by "+ifelse(byNumber != "", byNumber, "something other than its ParentHash")+": on a side chain that is the canonical header of the parent's number, not the parent — an honest side-chain header is rejected, and a header that is invalid on its own parent (a proposal with several approvals appearing in one block) is accepted"))
+	}
 	vr := w.Fn("core", "HeaderChain", "VersionForRoundWithParents")
 	c.sawFunc(fname(vr))
 	back := constOf(w, "core", "protocolRoundBack")
@@ -381,4 +562,13 @@ func c12Variants() []Variant {
 		{Name: "approve-outside-window", File: f, Old: "					curr.NextApprovals == prev.NextApprovals &&\n					prev.NextApprovals >= prevProto.UpgradeThreshold", New: "					(curr.NextApprovals == prev.NextApprovals || curr.NextApprovals == prev.NextApprovals+1) &&\n					curr.NextApprovals >= prevProto.UpgradeThreshold", Rule: "C12.W2", Construct: "approval-window"},
 		{Name: "import-without-verify", File: "core/blockchain.go", Old: "	i, err := bc.VerifyYouVersionState(chain)\n	if err != nil {", New: "	i, err := bc.VerifyYouVersionState(chain)\n	if err != nil && i < 0 {", Rule: "C12.W3", Construct: "verify-before-import"},
 	}
+}
+
+func opNames(m map[token.Token]token.Pos) []string {
+	var out []string
+	for op := range m {
+		out = append(out, op.String())
+	}
+	sort.Strings(out)
+	return out
 }
